@@ -159,7 +159,17 @@ func c09Eval(cs C09Case) string {
 			case "nameOtherCmd":
 				mux.Handle(m.OtherName+suffix(cs.Req), h(tag))
 			case "ALL":
-				mux.HandleFunc("ALL", h(tag))
+				// the catch-all has two spellings, the name "ALL" and the index ALL_CMD_INDEX: one key.
+				// Which one registers it first rotates with the case; a re-registration uses the other
+				byName := (cs.Subset>>3)&1 == 0
+				if strings.HasSuffix(tag, "#2") {
+					byName = !byName
+				}
+				if byName {
+					mux.HandleFunc("ALL", h(tag))
+				} else {
+					mux.HandleIdx(diam.ALL_CMD_INDEX, h(tag))
+				}
 			}
 		}
 		if cs.CaseReg == 1 {
@@ -323,7 +333,11 @@ func c09HistEval(h C09Hist) string {
 				case "nameOtherCmd":
 					blocked = register(func() { mux.Handle(m.OtherName+suffix(h.Req), hf) })
 				case "ALL":
-					blocked = register(func() { mux.Handle("ALL", hf) })
+					if gen%2 == 0 {
+						blocked = register(func() { mux.Handle("ALL", hf) })
+					} else {
+						blocked = register(func() { mux.HandleIdx(diam.ALL_CMD_INDEX, hf) })
+					}
 				}
 				if blocked != "" {
 					return blocked
@@ -474,7 +488,7 @@ func runC09(ctx *ev.Ctx) {
 	}
 	ctx.Set("histories", hn)
 	ctx.Set("distinct_selected_handlers", len(outcomes)+1)
-	ctx.Rule = "histories: every sequence of <=5 (thorough 6) operations over {register one of the eight keys with a fresh handler, dispatch, dispatch during which the selected handler panics and the caller recovers as the serve loop does (at most once)} ending in a dispatch, replayed on one ServeMux with every dispatch compared with a reference model (map key -> latest handler; index, then name, then catch-all); AND the complete decision table: for 10 message keys (a private command without a short name, one whose short name is mixed-case, application 0xffffffff with command code 2^24-1, base CE, application CC, RA under Gx which redefines it, RA under S6a which resolves through the base dictionary, and three messages carrying a private dictionary whose base application defines a command the default dictionary lacks and names code 280 differently; plus three (application, code) pairs whose command exists only in an application that the AVP parent table - not command lookup - leads to: only the catch-all may see those) x request/answer (the other command flag bits P, E, T and the reserved bits rotate with the case: only R selects; every other message was read off a stream as a different command and had its header rewritten before dispatch): all 2^8 subsets of the registrations {index K, index with other application, other code, other R bit, name of K, name with the other suffix, name of another command, ALL}, and every single re-registration of a present key with a second handler; each of these without, before and after a registration under the short name with the case of its letters swapped (no command's name: it must stay inert); the handler that fires and the number of error reports are compared with the reference decision (index, then name, then catch-all, else exactly one report)."
+	ctx.Rule = "histories: every sequence of <=5 (thorough 6) operations over {register one of the eight keys with a fresh handler, dispatch, dispatch during which the selected handler panics and the caller recovers as the serve loop does (at most once)} ending in a dispatch, replayed on one ServeMux with every dispatch compared with a reference model (map key -> latest handler; index, then name, then catch-all); AND the complete decision table: for 10 message keys (a private command without a short name, one whose short name is mixed-case, application 0xffffffff with command code 2^24-1, base CE, application CC, RA under Gx which redefines it, RA under S6a which resolves through the base dictionary, and three messages carrying a private dictionary whose base application defines a command the default dictionary lacks and names code 280 differently; plus three (application, code) pairs whose command exists only in an application that the AVP parent table - not command lookup - leads to: only the catch-all may see those) x request/answer (the other command flag bits P, E, T and the reserved bits rotate with the case: only R selects; every other message was read off a stream as a different command and had its header rewritten before dispatch): all 2^8 subsets of the registrations {index K, index with other application, other code, other R bit, name of K, name with the other suffix, name of another command, ALL - registered under the name \"ALL\" or under the index ALL_CMD_INDEX, a re-registration using the other spelling}, and every single re-registration of a present key with a second handler; each of these without, before and after a registration under the short name with the case of its letters swapped (no command's name: it must stay inert); the handler that fires and the number of error reports are compared with the reference decision (index, then name, then catch-all, else exactly one report)."
 	ctx.Assume = []string{"exact-index and name registrations are judged for commands the dictionary defines (incoming messages have passed ReadMessage); for undefined commands only the catch-all / error-report rows are judged"}
 }
 
